@@ -103,6 +103,34 @@ def lattice_input(rng: random.Random, inverted_repeat: bool = False, decoy: bool
         qrys.append({"id": qid + 1, "len": total * 10, "x": [v * 10 for v in mir], "kind": f"lattice{style}m",
                      "ref": ref["id"], "mirrored": True})
         qid += 2
+    # a contig with ONE label-dense stretch (gaps of 1-3 seeding bins inside it, at least 5 bins everywhere else) and the
+    # molecule that is exactly that stretch, with its mirror image: the blurred seeding vector of the molecule is all ones -
+    # the same read from either end although the molecule is no palindrome - so both strands give the same seed at the
+    # same place and only the refinement tells them apart
+    def sparse(x0, k):
+        out, x = [], x0
+        for _ in range(k):
+            out.append(x)
+            x += STEP * (5 + min(int(rng.expovariate(1 / 4.5)), 30))
+        return out, x
+    head, x = sparse(STEP * rng.randint(2, 6), rng.randint(25, 45))
+    w = rng.randint(15, 22)
+    stretch = []
+    for _ in range(w):
+        stretch.append(x)
+        x += STEP * rng.choice([1, 2, 2, 3, 3])
+    tailpart, _ = sparse(stretch[-1] + STEP * rng.randint(5, 12), rng.randint(25, 45))
+    xs = head + stretch + tailpart
+    if not decoy:
+        refs.append({"id": 15, "len": (xs[-1] + STEP * rng.randint(1, 20)) * 10, "x": [v * 10 for v in xs], "bp": xs})
+    labs = [v - stretch[0] for v in stretch]
+    total = labs[-1]
+    mir = sorted(total - v for v in labs)
+    # (not next to the decoy contig: its dense loci give an all-ones vector more tied seeds than peaksCount, and which of
+    # equally scored seeds are kept is no part of C11 - assumption 2)
+    if mir != labs and not decoy:
+        qrys.append({"id": 30, "len": total * 10 + 10, "x": [v * 10 for v in labs], "kind": "dense", "ref": 15, "mirrored": False})
+        qrys.append({"id": 31, "len": total * 10 + 10, "x": [v * 10 for v in mir], "kind": "densem", "ref": 15, "mirrored": True})
     if decoy:
         # a contig with two loci that resemble one molecule: T carries all its labels exactly, but with two additional
         # labels in most gaps (weak normalised seed peak, many pairs); E carries the first labels exactly and the others
@@ -174,7 +202,7 @@ def run(ctx: Ctx):
                 "first-pass record of a query with that of its mirror image. non-trivial = distinct query whose record "
                 "has a HitEnum gap (labels skipped) or which is aligned on the '-' strand")
     ctx.assumptions = ["default resolutions 1400 / 100; all coordinates multiples of 1400 bp; no equidistant ties",
-                       "two references do not give exactly equal seed scores"]
+                       "two references do not give exactly equal seed scores; no more than peaksCount seeds with exactly equal scores"]
     mc_res = {}
     import threading
 
